@@ -157,6 +157,14 @@ class TrackHooks(Hooks):
         if recv == ("typesmap",) and m == "insert" and len(args) == 2:
             self.inserts.append((args[0], args[1]))
             return NONE
+        if recv == ("typesmap",) and m == "extend" and len(args) == 1:
+            a0 = args[0]
+            pairs = [] if a0 == NONE else [a0[1]] if (isinstance(a0, tuple) and a0[0] == "some") else list(a0[1]) if (isinstance(a0, tuple) and a0[0] == "list") else None
+            if pairs is None or not all(isinstance(x, tuple) and x and x[0] == "tuple" and len(x[1]) == 2 for x in pairs):
+                return NotImplemented
+            for x in pairs:
+                self.inserts.append((x[1][0], x[1][1]))
+            return ("unit",)
         if (recv == ("typesmap",) and m == "get") or (recv == ("self",) and m == "resolve"):
             if len(args) == 1:
                 return ("some", ("sym", "RESOLVED")) if (args[0] == ("sym", "RTYPE") and self.resolvable) else NONE
